@@ -1,5 +1,6 @@
 import RQ.Lemmas.RoundTripRej
 import RQ.Props.C09
+import RQ.Lemmas.RejDisk
 /-!
 # C13 — reject files hold exactly the failed hunks of the failing patch
 
@@ -10,6 +11,11 @@ are exactly the failed hunks, in order, with the same lines on both sides and th
 Which files get one: the application loop renders reject files only for file patches of the failing
 patch whose report has a failed hunk (`C13_no_rej_on_success`, and `RQ.Abs.C05_apply_refines` for the
 equality with the specification).
+On disk: `C13_rej_on_disk` — after a real run of the sequential driver that succeeds, every rendered
+reject `(name, content)` whose directory exists is the regular file at the path of `name`, with exactly
+that content and mode 644 (`RQ/Lemmas/RejDisk.lean`: `saveRejFiles_written` describes the path after the
+loop of `save_rej_files` in general, `rejView`); `C13_rej_no_dir` — if the directory does not exist, no
+reject file is written and a stale one is gone (it is unlinked before the creation is attempted).
 -/
 namespace RQ.Write
 open RQ RQ.Parse
@@ -44,8 +50,112 @@ theorem C13_no_rej_on_success (fs : FS) (cfg : Push.Cfg)
     (h : Abs.applyRange fs cfg range k t = .ok (t', k', rejs)) (hk : k' = k + range.length) : rejs = [] :=
   Abs.applyRange_success_no_rej fs cfg range k t t' k' rejs h hk
 
+/-- **C13 (on disk)**: the reject files are where the user looks for them, and hold what was rendered.
+A real (non-dry) run of `applyPatches` returns `.ok (w', k)`; its application loop rendered the reject
+files `rejs`.  For every `(name, content) ∈ rejs` with path `key` (`safeKey name = some key`) outside
+`.pc`, provided no other reject for the same path carries a different content (`huniq`; in particular:
+the failing patch has only one failing file patch for that file — two of them is the known finding
+dup-entry-rej-overwrite, the later one wins) and the directory of `key` exists in the final tree `w'.fs`:
+the regular file at `key` in `w'.fs` has exactly the bytes `content` and mode 644.
+With `C13_rej_parses` (`content` parses back to exactly the failed hunks) this puts the failed hunks on
+disk.  No assumption on fault injection is needed: a run that returns `.ok` met no fault. -/
+theorem C13_rej_on_disk (w w' : Push.World) (cfg : Push.Cfg) (range : List Series.Entry) (st : Push.St)
+    (final k : Nat) (rejs : List (Bytes × Bytes)) (hdry : cfg.dryRun = false)
+    (hloop : Push.applyLoop w.fs cfg range 0 {} = .ok (st, final, rejs))
+    (h : Push.applyPatches w cfg range = .ok (w', k))
+    (name content : Bytes) (key : Key) (hmem : (name, content) ∈ rejs) (hkey : safeKey name = some key)
+    (huniq : ∀ r ∈ rejs, safeKey r.1 = some key → r.2 = content)
+    (hpc : ¬ Flush.isPcKey key) (hdir : w'.fs.isDir key.dropLast = true) :
+    Flush.fileAt w'.fs key = some (content, 0o644) :=
+  Flush.applyPatches_rej_on_disk w w' cfg range st final k rejs hdry hloop h name content key hmem hkey huniq
+    hpc hdir
+
+/-- the special case the task names: the name of the reject occurs only once among the rendered rejects,
+and no differently spelled name among them denotes the same path -/
+theorem C13_rej_on_disk_once (w w' : Push.World) (cfg : Push.Cfg) (range : List Series.Entry) (st : Push.St)
+    (final k : Nat) (rejs : List (Bytes × Bytes)) (hdry : cfg.dryRun = false)
+    (hloop : Push.applyLoop w.fs cfg range 0 {} = .ok (st, final, rejs))
+    (h : Push.applyPatches w cfg range = .ok (w', k))
+    (name content : Bytes) (key : Key) (hmem : (name, content) ∈ rejs) (hkey : safeKey name = some key)
+    (honce : ∀ r ∈ rejs, safeKey r.1 = some key → r = (name, content))
+    (hpc : ¬ Flush.isPcKey key) (hdir : w'.fs.isDir key.dropLast = true) :
+    Flush.fileAt w'.fs key = some (content, 0o644) :=
+  C13_rej_on_disk w w' cfg range st final k rejs hdry hloop h name content key hmem hkey
+    (fun r hr hk => by rw [honce r hr hk]) hpc hdir
+
+/-- the complement: the directory of a reject path does not exist in the final tree — then there is no
+file at that path: none is written, and an old one has been unlinked -/
+theorem C13_rej_no_dir (w w' : Push.World) (cfg : Push.Cfg) (range : List Series.Entry) (st : Push.St)
+    (final k : Nat) (rejs : List (Bytes × Bytes)) (hdry : cfg.dryRun = false)
+    (hloop : Push.applyLoop w.fs cfg range 0 {} = .ok (st, final, rejs))
+    (h : Push.applyPatches w cfg range = .ok (w', k))
+    (key : Key) (hex : Flush.isRejKey rejs key) (hpc : ¬ Flush.isPcKey key)
+    (hdir : w'.fs.isDir key.dropLast = false) :
+    Flush.fileAt w'.fs key = none :=
+  Flush.applyPatches_rej_no_dir w w' cfg range st final k rejs hdry hloop h key hex hpc hdir
+
+/-! ### non-vacuity: `b` = "y\n", `patches/p1` wants to change `z` into `Z` in `b` and fails -/
+namespace RejEx
+open RQ.Push
+
+/-- `--- b\n+++ b\n@@ -1 +1 @@\n-z\n+Z\n` -/
+def p1Bytes : Bytes :=
+  [45, 45, 45, 32, 98, 10, 43, 43, 43, 32, 98, 10, 64, 64, 32, 45, 49, 32, 43, 49, 32, 64, 64, 10, 45, 122, 10, 43, 90, 10]
+def pdir : Bytes := [112, 97, 116, 99, 104, 101, 115]
+def fs0 : FS :=
+  { nodes := [([[98]], .file [121, 10] 0o644 1), ([pdir], .dir), ([pdir, [112, 49]], .file p1Bytes 0o644 2)],
+    nextIno := 3 }
+def w0 : World := { fs := fs0 }
+def cfg0 : Cfg := {}
+def range0 : List Series.Entry := [{ name := [112, 49], strip := 0, reverse := false }]
+/-- `b.rej` -/
+def bRejName : Bytes := [98, 46, 114, 101, 106]
+
+theorem loop0 : (match applyLoop w0.fs cfg0 range0 0 {} with
+    | .ok (_, k, rejs) => k == 0 && rejs.map (·.1) == [bRejName]
+    | .error _ => false) = true := by decide
+
+theorem run0 : (match applyPatches w0 cfg0 range0 with
+    | .ok (_, k) => k == 0
+    | .error _ => false) = true := by decide
+
+/-- all hypotheses of `C13_rej_on_disk` hold for this push, so `b.rej` is on disk with the rendered content -/
+example : ∃ w' k st final content, applyPatches w0 cfg0 range0 = .ok (w', k) ∧
+    applyLoop w0.fs cfg0 range0 0 {} = .ok (st, final, [(bRejName, content)]) ∧
+    Flush.fileAt w'.fs [bRejName] = some (content, 0o644) := by
+  have hl := loop0
+  have hr := run0
+  cases hloop : applyLoop w0.fs cfg0 range0 0 {} with
+  | error e => rw [hloop] at hl; cases hl
+  | ok r =>
+    obtain ⟨st, final, rejs⟩ := r
+    rw [hloop] at hl
+    simp only [Bool.and_eq_true, beq_iff_eq] at hl
+    obtain ⟨_, hnames⟩ := hl
+    cases hrun : applyPatches w0 cfg0 range0 with
+    | error e => rw [hrun] at hr; cases hr
+    | ok r2 =>
+      obtain ⟨w', k⟩ := r2
+      match rejs, hnames, hloop with
+      | [(n, content)], hnames, hloop =>
+        simp only [List.map_cons, List.map_nil, List.cons.injEq, and_true] at hnames
+        subst hnames
+        refine ⟨w', k, st, final, content, rfl, rfl, ?_⟩
+        have hkey : safeKey bRejName = some [bRejName] := by decide
+        exact C13_rej_on_disk w0 w' cfg0 range0 st final k _ rfl hloop hrun bRejName content [bRejName]
+          (List.mem_cons_self ..) hkey
+          (fun r hr _ => by simp only [List.mem_cons, List.not_mem_nil, or_false] at hr; rw [hr])
+          (by unfold Flush.isPcKey; decide) rfl
+
+end RejEx
+
 #print axioms writeRej_eq
 #print axioms C13_rej_parses
 #print axioms C13_no_rej_on_success
+#print axioms Flush.saveRejFiles_isDir
+#print axioms Flush.saveRejFiles_written
+#print axioms C13_rej_on_disk
+#print axioms C13_rej_on_disk_once
+#print axioms C13_rej_no_dir
 
 end RQ.Write
